@@ -5,6 +5,7 @@
 #include <set>
 #include <mutex>
 #include <thread>
+#include <memory>
 #include <boost/property_map/function_property_map.hpp>
 #include <parmcb/parmcb.hpp>
 #ifndef VSHIM_ACTIVE
@@ -33,38 +34,81 @@ int main(int argc, char **argv) {
         while ((int) s.edges.size() < m) { int x = (int) r.below(n), y = (int) r.below(n); if (x == y) continue; if (!used.insert({std::min(x, y), std::max(x, y)}).second) continue; s.edges.push_back({x, y, r.range(1, 9)}); }
         G g; build_graph<double>(s, g);
         boost::function_property_map<RecWeight, E, double> wm(RecWeight{&g});
-        std::vector<size_t> seq;
-        if (a.opt.count("seq")) { std::stringstream ss(a.gets("seq", "1")); std::string tok; while (std::getline(ss, tok, ',')) seq.push_back((size_t) atoll(tok.c_str())); }
-        else { static const size_t ns[] = {1, 2, 3, 4, 8, 1, 2, 5, 6, 12, 16}; int len = (int) r.range(1, 4); for (int q = 0; q < len; q++) seq.push_back(ns[r.below(11)]); }
-        std::string seqs; for (size_t x : seq) seqs += (seqs.empty() ? "" : ",") + std::to_string(x);
+        // a history over three operations: "<n>" = set_global_tbb_concurrency(n) followed by library calls, "A<m>" = the application
+        // creates its own tbb::global_control(max_allowed_parallelism, m), "P" = the application destroys its most recent one
+        std::vector<std::string> ops;
+        if (a.opt.count("seq")) { std::stringstream ss(a.gets("seq", "1")); std::string tok; while (std::getline(ss, tok, ',')) ops.push_back(tok); }
+        else {
+            static const size_t ns[] = {1, 2, 3, 4, 8, 1, 2, 5, 6, 12, 16}; int len = (int) r.range(1, 4); int live = 0;
+            bool with_app = r.chance(0.5);
+            for (int q = 0; q < len; q++) {
+                size_t want = ns[r.below(11)];
+                if (with_app && r.chance(0.5)) { size_t m = r.chance(0.5) ? want : ns[r.below(11)]; ops.push_back("A" + std::to_string(m)); live++; }
+                ops.push_back(std::to_string(want));
+                while (live > 0 && r.chance(0.6)) { ops.push_back("P"); live--; }
+            }
+        }
+        std::string seqs; for (auto &x : ops) seqs += (seqs.empty() ? "" : ",") + x;
         std::string cj = J().str("component", "set_global_tbb_concurrency").str("call_sequence", seqs).num("graph_n", n).num("graph_m", m).done();
         size_t max_before = 0; std::string obs_all; double first_val = -1;
-        bool bounded_seen = false;
-        for (size_t q = 0; q < seq.size(); q++) {
-            size_t want = seq[q];
+        bool bounded_seen = false, app_seen = false, app_equal_seen = false; int nsets = 0; std::vector<size_t> sets;
+#ifndef VSHIM_ACTIVE
+        std::vector<std::unique_ptr<tbb::global_control>> app; std::vector<size_t> appv;
+#else
+        std::vector<size_t> appv;
+#endif
+        bool have_want = false; size_t want = 0;
+        // the limit the application may rely on: n, unless one of its own live controls asks for less (oneTBB: the minimum wins)
+        auto expect_ok = [&](const char *when, const std::string &k2) {
+            if (!have_want) return;
+            for (size_t v : appv) if (v < want) return;
+            size_t active = tbb::global_control::active_value(tbb::global_control::max_allowed_parallelism);
+            if (active != want) co.viol(k2, std::string(when) + ": set_global_tbb_concurrency(" + std::to_string(want) + ") was the last setting (history " + seqs + ", " + std::to_string(appv.size()) + " application-owned controls alive, none below " + std::to_string(want) + ") but the active max_allowed_parallelism is " + std::to_string(active), cj, "seq=" + seqs);
+        };
+        for (size_t q = 0; q < ops.size(); q++) {
+            const std::string &op = ops[q];
+            if (op[0] == 'A') {
+#ifndef VSHIM_ACTIVE
+                size_t mval = (size_t) atoll(op.c_str() + 1); app.emplace_back(new tbb::global_control(tbb::global_control::max_allowed_parallelism, mval)); appv.push_back(mval); app_seen = true;
+                if (q + 1 < ops.size() && ops[q + 1] == std::to_string(mval)) app_equal_seen = true;
+                expect_ok("after the application created its own control", "knob:active_value_with_app_control");
+#endif
+                continue;
+            }
+            if (op[0] == 'P') {
+#ifndef VSHIM_ACTIVE
+                if (!app.empty()) { app.pop_back(); appv.pop_back(); }
+                expect_ok("after the application destroyed its own control", "knob:active_value_after_app_control_destroyed");
+#endif
+                continue;
+            }
+            want = (size_t) atoll(op.c_str()); have_want = true; nsets++; sets.push_back(want);
             parmcb::set_global_tbb_concurrency(want);
             size_t active = tbb::global_control::active_value(tbb::global_control::max_allowed_parallelism);
-            if (active != want) co.viol("knob:active_value", "after set_global_tbb_concurrency(" + std::to_string(want) + ") returned (call #" + std::to_string(q + 1) + " of sequence " + seqs + ") the active max_allowed_parallelism is " + std::to_string(active), cj, "seq=" + seqs);
+            expect_ok("right after the call returned", appv.empty() ? "knob:active_value" : "knob:active_value_with_app_control");
             { std::lock_guard<std::mutex> l(g_mu); g_tids.clear(); }
             std::list<std::list<E>> c1, c2;
             double v1 = parmcb::mcb_sva_signed_tbb(g, wm, std::back_inserter(c1));
             double v2 = parmcb::mcb_sva_fvs_trees_tbb(g, wm, std::back_inserter(c2));
             if (first_val < 0) first_val = v1;
             if (v1 != first_val || v2 != first_val) co.viol("knob:result_changed", "library result changed with the concurrency setting", cj, "seq=" + seqs);
-            size_t after = tbb::global_control::active_value(tbb::global_control::max_allowed_parallelism);
-            if (after != want) co.viol("knob:active_value_after_calls", "after two library calls following set_global_tbb_concurrency(" + std::to_string(want) + ") the active limit is " + std::to_string(after), cj, "seq=" + seqs);
+            expect_ok("after two library calls", appv.empty() ? "knob:active_value_after_calls" : "knob:active_value_with_app_control");
             size_t distinct; { std::lock_guard<std::mutex> l(g_mu); distinct = g_tids.size(); }
 #ifndef VSHIM_ACTIVE
             if (want == 1 && max_before <= 1) { // no earlier call allowed more, and with limit 1 no worker may join: the caller alone executes
                 bounded_seen = true;
-                if (distinct != 1) co.viol("knob:not_serial", "limit 1 but " + std::to_string(distinct) + " distinct threads executed library tasks (call #" + std::to_string(q + 1) + " of " + seqs + ")", cj, "seq=" + seqs);
+                if (distinct != 1) co.viol("knob:not_serial", "limit 1 but " + std::to_string(distinct) + " distinct threads executed library tasks (operation #" + std::to_string(q + 1) + " of " + seqs + ")", cj, "seq=" + seqs);
             }
 #endif
             obs_all += "n=" + std::to_string(want) + ":active=" + std::to_string(active) + ",threads=" + std::to_string(distinct) + " ";
-            max_before = std::max(max_before, want);
+            max_before = std::max(max_before, std::max(want, active));
         }
+#ifndef VSHIM_ACTIVE
+        while (!app.empty()) { app.pop_back(); appv.pop_back(); expect_ok("after the application destroyed its own control", "knob:active_value_after_app_control_destroyed"); }
+#endif
+        std::vector<size_t> &seq = sets;
         co.hash = mix(std::hash<std::string>()(seqs), i); co.nontrivial = true;
-        co.tag("len=" + std::to_string(seq.size())); co.tag("first_n=" + std::to_string(seq[0])); if (bounded_seen) co.tag("thread_identity_bound_applied");
+        co.tag("len=" + std::to_string(seq.size())); co.tag("first_n=" + std::to_string(seq[0])); if (bounded_seen) co.tag("thread_identity_bound_applied"); if (app_seen) co.tag("application_owned_controls"); if (app_equal_seen) co.tag("app_control_equals_requested_n");
         bool dec = false; for (size_t q = 1; q < seq.size(); q++) if (seq[q] < seq[q - 1]) dec = true; if (dec) co.tag("has_decrease"); if (seq.size() > 1 && !dec) co.tag("non_decreasing");
         co.sample = J().str("call_sequence", seqs).str("observed", obs_all).done();
         co.end();
